@@ -379,8 +379,8 @@ def check(ctx):
     for cfg in configs(ctx.tier):
         ctx.cfg = cfg.name
         lib = ctx.load(cfg)
-        n = shared.S_T_term(ctx, lib, which={"is_truth_value", "is_true", "compare_inf"})
-        ctx.floor("S.T-term", "functions", n, 3)
+        n = shared.S_T_term(ctx, lib, which={"is_truth_value", "is_true", "compare_inf", "no_inf_inconsistency"})
+        ctx.floor("S.T-term", "functions", n, 4)
         P_filter(ctx, lib)
         rule = "S.X-exhaust"
         ctx.rule(rule, "the cubes of Bdd::interpretations and the vectors returned by two_val_model_counts* are consumed only by non-short-circuiting "
